@@ -125,29 +125,179 @@ def snap(rng, v, lo, hi, step):
     return min(hi, max(lo, lo + k * step))
 
 
-def gen_config(rng, kind="sim", allow_face=True):
-    """a JSON-able description of one run"""
+# ----------------------------------------------------------------------------- factors of the random runs
+# every configuration dimension of the runs is an explicit factor with a finite value set; the runs are generated from a
+# greedy all-pairs covering array of these (quick and thorough: the whole array, seeded by VERIF_SEED, then random vectors)
+FACTORS = {
+    "integrator": ["leapfrog", "sei", "ias15", "whfast"],
+    "boundary": ["periodic", "open", "shear"],
+    "gravity": ["none", "tree"],
+    "collision": ["none", "tree", "linetree", "direct", "line"],
+    "resolve": ["-", "hardsphere", "merge", "callback"],
+    "layout": ["1x1x1", "cubic", "nonsquare"],
+    "roles": ["all_active", "tp0_massive", "tp0_massless", "tp1_massive", "tp1_massless"],
+    "dtsign": ["+", "-"],
+    "restart": ["none", "copy", "file"],
+    "userop": ["none", "add", "remove", "add+remove"],
+    "adjacency": ["none", "add;remove", "remove;add", "restart;add", "restart;remove", "add;restart", "remove;restart"],
+    "posmode": ["uniform", "cluster", "dyadic", "face"],
+    "speed": ["slow", "fast", "veryfast"],
+    "nclass": ["tiny", "small", "medium", "large"],
+    "af_probe": [0, 1],
+    "upd_every": [1, 2, 3],
+}
+
+
+def pair_excluded(f, a, g, b):
+    """combinations that are not generated, with the reason (never silently)"""
+    v = {f: a, g: b}
+    if "collision" in v and "resolve" in v:
+        if (v["collision"] == "none") != (v["resolve"] == "-"):
+            return "a resolver exists exactly when there is a collision search"
+    if v.get("integrator") == "whfast":
+        if v.get("gravity") == "tree" or v.get("collision", "none") != "none" or v.get("af_probe") == 1 or \
+                v.get("resolve", "-") != "-":
+            return "WHFast with a tree / collisions: known finding C15-N6 (own probe); WHFast drives tree-less runs"
+        if v.get("roles") in ("tp0_massless", "tp1_massless"):
+            return "WHFast with massless bodies divides by zero Jacobi masses"
+    if v.get("af_probe") == 1 and v.get("gravity") == "none":
+        return "additional_forces probe inspects the tree used by gravity"
+    if v.get("roles") in ("tp0_massless", "tp1_massless") and (v.get("collision", "none") != "none" or v.get("resolve", "-") != "-"):
+        return "colliding massless bodies give NaN velocities (C13 F19)"
+    if v.get("nclass") == "tiny" and v.get("roles", "all_active") != "all_active":
+        return "N_active < N needs at least two particles"
+    if v.get("adjacency", "none") != "none" and (v.get("userop", "none") != "none" or v.get("restart", "none") != "none"):
+        return "the adjacency factor schedules its own user operation / restart"
+    if v.get("integrator") == "ias15" and v.get("adjacency", "none") != "none" and False:
+        return ""
+    return None
+
+
+def vector_ok(fv):
+    ks = list(fv)
+    for i, f in enumerate(ks):
+        for g in ks[i + 1:]:
+            if pair_excluded(f, fv[f], g, fv[g]):
+                return False
+    return True
+
+
+def all_pairs():
+    ks = list(FACTORS)
+    tot, exc = [], []
+    for i, f in enumerate(ks):
+        for g in ks[i + 1:]:
+            for a in FACTORS[f]:
+                for b in FACTORS[g]:
+                    (exc if pair_excluded(f, a, g, b) else tot).append((f, a, g, b))
+    return tot, exc
+
+
+def pairs_of(fv):
+    ks = list(FACTORS)
+    return {(f, fv[f], g, fv[g]) for i, f in enumerate(ks) for g in ks[i + 1:]}
+
+
+# sampling weights of the random (non-array) vectors: cheap values more often, every value still possible
+WEIGHTS = {"integrator": [3, 1, 1, 1], "nclass": [5, 8, 5, 2], "af_probe": [2, 1], "adjacency": [6, 1, 1, 1, 1, 1, 1],
+           "userop": [4, 1, 1, 1], "restart": [3, 1, 1], "posmode": [3, 2, 2, 1]}
+
+
+def wchoice(rng, f):
+    vs = FACTORS[f]
+    w = WEIGHTS.get(f)
+    if not w:
+        return rng.choice(vs)
+    k = rng.randint(1, sum(w))
+    for v, wi in zip(vs, w):
+        k -= wi
+        if k <= 0:
+            return v
+    return vs[-1]
+
+
+def random_vector(rng, weighted=False):
+    for _ in range(1000):
+        fv = {f: (wchoice(rng, f) if weighted else rng.choice(vs)) for f, vs in FACTORS.items()}
+        if fv["collision"] == "none":
+            fv["resolve"] = "-"
+        elif fv["resolve"] == "-":
+            fv["resolve"] = rng.choice(FACTORS["resolve"][1:])
+        if vector_ok(fv):
+            return fv
+    raise Infra("no admissible factor vector found")
+
+
+def covering_array(rng):
+    """greedy all-pairs: repeatedly take, out of 80 random admissible vectors, the one covering most uncovered pairs"""
+    todo = set(all_pairs()[0])
+    rows = []
+    while todo:
+        best, bestn = None, -1
+        for _ in range(80):
+            fv = random_vector(rng)
+            # steer half of the candidates through a still uncovered pair
+            if todo and rng.chance(0.5):
+                f, a, g, b = next(iter(todo))
+                fv2 = dict(fv); fv2[f] = a; fv2[g] = b
+                if fv2["collision"] == "none":
+                    fv2["resolve"] = "-"
+                if vector_ok(fv2):
+                    fv = fv2
+            n = len(pairs_of(fv) & todo)
+            if n > bestn:
+                best, bestn = fv, n
+        if bestn <= 0:
+            # a pair that no admissible vector contains: report it as uncoverable rather than loop
+            f, a, g, b = next(iter(todo))
+            todo.discard((f, a, g, b))
+            rows.append(None)
+            continue
+        rows.append(best)
+        todo -= pairs_of(best)
+    return [r for r in rows if r is not None]
+
+
+def gen_config(rng, kind="sim", allow_face=True, fv=None):
+    """a JSON-able description of one run, built from a factor vector"""
+    if fv is None:
+        fv = random_vector(rng, weighted=True)
+        if not allow_face and fv["posmode"] == "face":
+            fv = dict(fv, posmode="uniform")
+    fv = dict(fv)
+    if kind != "sim":
+        # the fresh / boundary / update-walk cases are about a simulation that has a tree; no stepping, no roles
+        if fv["collision"] in ("direct", "line", "none") and fv["gravity"] == "none":
+            fv["collision"], fv["resolve"] = "tree", ("hardsphere" if fv["resolve"] == "-" else fv["resolve"])
+        elif fv["collision"] in ("direct", "line"):
+            fv["collision"] = "tree"
+        if fv["integrator"] == "whfast":
+            fv["integrator"] = "leapfrog"
+        fv["roles"] = "all_active" if fv["roles"].endswith("massless") else fv["roles"]
     rs = rng.choice([1.0, 2.0, 10.0, 0.5]) if rng.chance(0.5) else rng.uniform(0.3, 20.0)
-    small = rng.chance(0.6)
-    nx, ny, nz = [(rng.choice([1, 1, 2, 2, 3]) if small else rng.randint(1, 6)) for _ in range(3)]
-    boundary = rng.choice(["periodic", "periodic", "open", "shear"])
-    gravity = rng.choice(["none", "tree"])
-    collision = rng.choice(["none", "tree", "linetree", "tree", "direct", "line"])
-    if kind != "sim" and collision in ("direct", "line"):
-        collision = "tree"        # the fresh / boundary / update-walk cases are about a simulation that has a tree
-    if kind == "sim" and gravity == "none" and collision == "none" and rng.chance(0.8):
-        collision = "tree"
-    resolve = rng.choice(["hardsphere", "merge"])
-    n = rng.choice([1, 2, 3, 5, 8, 13, 20, 40, 80, 150]) if not rng.chance(0.1) else rng.randint(200, 600)
+    if fv["layout"] == "1x1x1":
+        nx, ny, nz = 1, 1, 1
+    elif fv["layout"] == "cubic":
+        nx = ny = nz = rng.choice([2, 2, 3, 4])
+    else:
+        while True:
+            nx, ny, nz = [rng.choice([1, 1, 2, 2, 3, rng.randint(1, 6)]) for _ in range(3)]
+            if len({nx, ny, nz}) > 1:
+                break
+    boundary, gravity, collision = fv["boundary"], fv["gravity"], fv["collision"]
+    resolve = "hardsphere" if fv["resolve"] == "-" else fv["resolve"]
+    n = {"tiny": rng.choice([1, 2, 3]), "small": rng.choice([5, 8, 13, 20]), "medium": rng.choice([40, 80, 150]),
+         "large": rng.randint(200, 600)}[fv["nclass"]]
+    if fv["roles"] != "all_active":
+        n = max(n, 2)
     bx, by, bz = rs * nx, rs * ny, rs * nz
     dt = rng.choice([0.01, 0.05, 0.1])
-    vscale = rng.choice([0.1, 1.0, 3.0, 3.0, 8.0]) * rs / dt    # up to several root boxes per step
-    posmode = rng.choice(["uniform", "uniform", "cluster", "dyadic", "mixed"])
-    face = allow_face and rng.chance(0.15)
+    vscale = {"slow": 0.1, "fast": rng.choice([1.0, 3.0]), "veryfast": 8.0}[fv["speed"]] * rs / dt
+    face = fv["posmode"] == "face"
+    posmode = rng.choice(["uniform", "dyadic", "mixed"]) if face else fv["posmode"]
     parts = []
     seen = set()
     cen = [rng.uniform(-b / 2, b / 2) for b in (bx, by, bz)]
-    massless_ok = collision == "none"      # two colliding massless hard spheres give NaN velocities (C13's business)
     tries = 0
     while len(parts) < n:
         tries += 1
@@ -171,52 +321,60 @@ def gen_config(rng, kind="sim", allow_face=True):
             k = rng.randint(0, nr)
             pos[a] = rng.choice([b / 2, -b / 2, math.nextafter(b / 2, 0.0), math.nextafter(-b / 2, 0.0), -b / 2 + k * rs, 0.0])
         if not face and any(axis_misfiled(v, b, rs, nr) for v, (b, nr) in zip(pos, ((bx, nx), (by, ny), (bz, nz)))):
-            continue        # on a root-box face: only in the `face` configurations (known finding C15-N1)
+            continue        # on a root-box face: only in the `face` configurations
         if tuple(pos) in seen:
             continue        # coincident particles are refused by the code (error message); separate generator
         seen.add(tuple(pos))
         vel = [rng.normal() * vscale * (0.0 if rng.chance(0.1) else 1.0) for _ in range(3)]
-        m = 0.0 if (massless_ok and rng.chance(0.1)) else rng.loguniform(1e-6, 1.0)
+        m = rng.loguniform(1e-6, 1.0)
+        if collision == "none" and fv["integrator"] != "whfast" and fv["roles"] == "all_active" and rng.chance(0.1):
+            m = 0.0             # zero-mass active bodies
         r = rs * rng.choice([0.0, 0.002, 0.01, 0.03])
         parts.append([d2h(v) for v in pos + vel + [m, r]])
-    # ---- cross-cutting dimensions (BUILDERS-deepen "cross-cutting dimensions")
-    integ = rng.choice(["leapfrog", "leapfrog", "leapfrog", "sei", "ias15", "whfast"])
-    if boundary == "shear" and rng.chance(0.6):
-        integ = "sei"
-    dtsign = -1.0 if rng.chance(0.2) else 1.0
-    nact = rng.randint(1, n) if (rng.chance(0.3) and n >= 2) else -1
-    tptype = rng.randint(0, 1)
-    if nact >= 0:
-        for i in range(nact, n):           # massive and massless test particles
-            if collision == "none" and integ != "whfast" and rng.chance(0.5):
-                parts[i][6] = d2h(0.0)
-    if integ == "whfast":
-        for row in parts:
-            if h2d(row[6]) == 0.0:
-                row[6] = d2h(rng.loguniform(1e-6, 1.0))
-    if collision != "none" and rng.chance(0.15):
-        resolve = "callback"               # Python callable deciding which particle to remove
+    integ = fv["integrator"]
+    dtsign = -1.0 if fv["dtsign"] == "-" else 1.0
+    nact, tptype = -1, 0
+    if fv["roles"] != "all_active":
+        nact = rng.randint(1, n - 1)
+        tptype = 1 if fv["roles"].startswith("tp1") else 0
+        if fv["roles"].endswith("massless"):
+            for i in range(nact, n):
+                if rng.chance(0.7) or i == nact:
+                    parts[i][6] = d2h(0.0)
+    # user operations / restarts, and their adjacency (event A before step s, event B before step s+1)
+    def mkop(step, what):
+        return [step, what, [d2h(rng.uniform(-b / 2, b / 2) * 0.999) for b in (bx, by, bz)], rng.next() & 0xFFFF]
     userops = []
-    if kind == "sim" and rng.chance(0.25):
-        for _ in range(rng.randint(1, 3)):
-            userops.append([rng.randint(1, 20), rng.choice(["add", "remove"]),
-                            [d2h(rng.uniform(-b / 2, b / 2) * 0.999) for b in (bx, by, bz)], rng.next() & 0xFFFF])
-    if integ == "whfast":
-        # WHFast keeps Jacobi coordinates (p_jh) across the mid-step boundary check / tree update: with a tree in use the
-        # array is reordered under it (known finding C15-N6, dedicated probe); here it drives the end-of-step boundary only
-        gravity, collision = "none", "none"
+    restart_at, restart_kind = 0, rng.choice(["copy", "file"])
+    if kind == "sim":
+        if fv["userop"] != "none":
+            for w in fv["userop"].split("+"):
+                userops.append(mkop(rng.randint(1, 7), w))
+            if rng.chance(0.3):
+                userops.append(mkop(rng.randint(1, 20), rng.choice(["add", "remove"])))
+        if fv["restart"] != "none":
+            restart_at, restart_kind = rng.randint(1, 7), fv["restart"]
+        if fv["adjacency"] != "none":
+            s0 = rng.randint(1, 5)
+            for k, ev in enumerate(fv["adjacency"].split(";")):
+                if ev == "restart":
+                    restart_at = s0 + k
+                else:
+                    userops.append(mkop(s0 + k, ev))
     Gval = rng.choice([1.0, 1.0, 39.47841760435743, 6.674e-11])
     soft = rng.choice([0.0, 0.01 * rs])
     if gravity == "tree" and soft == 0.0:
         Gval = 6.674e-11          # unsoftened close encounters would throw particles beyond 2^53 L (C15-N5)
+    if gravity == "tree" and integ == "ias15":
+        soft = 0.01 * rs          # an unsoftened pair a few ulp apart collapses the IAS15 step to 0 and then NaN (IAS15's business)
     extra = dict(integrator=integ, dtsign=dtsign, n_active=nact, tptype=tptype, userops=userops,
-                 G=d2h(Gval), soft=d2h(soft), af_probe=(gravity == "tree" and rng.chance(0.3)))
+                 G=d2h(Gval), soft=d2h(soft), af_probe=bool(fv["af_probe"]) and gravity == "tree", fv=fv)
     return dict(extra, rs=d2h(rs), nx=nx, ny=ny, nz=nz, boundary=boundary, gravity=gravity, collision=collision,
                 resolve=resolve, dt=d2h(dt), omega=d2h(rng.uniform(0.2, 2.0) * rng.choice([1, 1, 1, -1])),
                 t0=d2h(rng.choice([rng.uniform(0, 50.0), rng.uniform(0, 50.0), -rng.uniform(0, 50.0), rng.uniform(-1e6, 1e6)])),
                 steps=rng.randint(8, 60), parts=parts, seed=rng.next() & 0xFFFFFFFF,
-                upd_every=rng.choice([1, 1, 1, 2, 3]), posmode=posmode, face=face,
-                restart_at=(rng.randint(1, 12) if rng.chance(0.35) else 0), restart_kind=rng.choice(["copy", "file"]),
+                upd_every=fv["upd_every"], posmode=posmode, face=face,
+                restart_at=restart_at, restart_kind=restart_kind,
                 track_energy=(1 if rng.chance(0.4) else 0),    # open boundary without a tree: removal with keep_sorted
                 theta2=d2h(rng.choice([0.0, 0.25, 1.0])))
 
@@ -653,6 +811,7 @@ def run_sim(cfg, out, model_budget):
            integ, cfg.get("dtsign", 1.0) < 0, cfg.get("n_active", -1) >= 0)
     for dname in sim_dimensions(cfg):
         out.inc("dim:" + dname)
+    out.notes["fv"] = cfg.get("fv")
     probe = install_af_probe(sim, cfg, out) if cfg.get("af_probe") else None
     next_hash = [len(cfg["parts"]) + 1]
     if tree_on and sim.N > 0:
@@ -1121,6 +1280,104 @@ def run_probe(job, out):
     out.evals.append((("probe", what), 2))
 
 
+# ----------------------------------------------------------------------------- public entry points
+C_ENTRY = ["reb_simulation_configure_box", "reb_simulation_add", "reb_simulation_remove_particle",
+           "reb_simulation_remove_particle_by_hash", "reb_simulation_remove_all_particles", "reb_simulation_update_tree",
+           "reb_simulation_step", "reb_simulation_steps", "reb_simulation_integrate", "reb_simulation_move_to_com",
+           "reb_simulation_move_to_hel", "reb_simulation_copy", "reb_simulation_save_to_file",
+           "reb_simulation_create_from_file", "reb_simulation_free"]
+PY_ENTRY = ["configure_box", "add", "remove", "update_tree", "step", "steps", "integrate", "move_to_com", "move_to_hel",
+            "copy", "save_to_file", "boundary", "gravity", "collision", "collision_resolve", "N_active", "root_size",
+            "N_root_x", "N_root_y", "N_root_z", "boxsize", "opening_angle2"]
+
+
+def extract_entry_points(d):
+    """public C functions (DLLEXPORT prototypes of rebound.h) and Python methods/attributes that reach boundary.c / tree.c.
+    Returns (c_names present, names that look related but are not in the list, python names present)."""
+    import re
+    h = open(os.path.join(d, "src", "rebound.h")).read()
+    names = set(re.findall(r"^DLLEXPORT[^;(]*?\b(reb_\w+)\s*\(", h, flags=re.M))
+    present = [n for n in C_ENTRY if n in names]
+    related = sorted(n for n in names if re.search(r"tree|_box|boundary|rootbox", n) and n not in C_ENTRY
+                     and not re.search(r"display|server|vertex", n))
+    py = [n for n in PY_ENTRY if hasattr(_rebound.Simulation, n)]
+    return present, related, py
+
+
+def run_entry(job, out):
+    """every public entry point once, on a small simulation with tree gravity, tree collisions, periodic box, 2x1x1 root
+    boxes and a centre of mass away from the origin; the tree oracle after each call"""
+    used = []
+    cfg = dict(rs=d2h(4.0), nx=2, ny=1, nz=1, boundary="periodic", gravity="tree", collision="tree", face=False)
+    rng = SplitMix(job["seed"])
+
+    def oracle(sim, tag, update):
+        if update:
+            _clib.reb_boundary_check(ctypes.byref(sim))
+            _clib.reb_simulation_update_tree(ctypes.byref(sim))
+        ms = [t for k, t in messages(sim) if k == "e"]
+        if ms:
+            out.viol.append(("entry-error", "%s reported: %s" % (tag, ms[0]), dict(entry=tag)))
+        if sim.N == 0:
+            return
+        _clib.reb_simulation_update_tree_gravity_data(ctypes.byref(sim))
+        parts, cells = get_parts(sim), get_dump(sim)
+        errs = check_tree(cfg, cells or [], parts, True) if cells is not None else [("dump", "tree cannot be walked", [])]
+        bad = [p["h"] for p in parts if not inside_box(cfg, p)]
+        if errs or bad:
+            out.viol.append(("entry-" + tag.split()[0], "after %s: %s" % (tag, errs[0][1] if errs else "particles %s outside the box" % bad[:5]),
+                             dict(entry=tag, seed=job["seed"])))
+        out.inc("entry_point_checks")
+
+    sim = _rebound.Simulation()
+    sim.configure_box(4.0, 2, 1, 1); used += ["reb_simulation_configure_box", "py:configure_box"]
+    sim.integrator = "leapfrog"; sim.dt = 0.05
+    sim.boundary = "periodic"; sim.gravity = "tree"; sim.collision = "tree"; sim.collision_resolve = "hardsphere"
+    sim.opening_angle2 = 0.3; sim.softening = 0.05
+    used += ["py:boundary", "py:gravity", "py:collision", "py:collision_resolve", "py:opening_angle2"]
+    _ = (sim.root_size, sim.N_root_x, sim.N_root_y, sim.N_root_z, sim.boxsize.x)
+    used += ["py:root_size", "py:N_root_x", "py:N_root_y", "py:N_root_z", "py:boxsize"]
+    h = 1
+    for i in range(10):                                   # Python add (keywords), centre of mass at x ~ +1.5
+        sim.add(m=rng.uniform(0.1, 1.0), x=rng.uniform(0.2, 3.9), y=rng.uniform(-1.9, 1.9), z=rng.uniform(-1.9, 1.9),
+                vx=rng.normal(), vy=rng.normal(), vz=rng.normal(), r=0.01, hash=h); h += 1
+    used.append("py:add")
+    p = _rebound.Particle(m=0.5, x=-3.0, y=0.5, z=-0.5, vx=0.3, r=0.01); p.hash = h; h += 1
+    _clib.reb_simulation_add(ctypes.byref(sim), p); used.append("reb_simulation_add")
+    oracle(sim, "add", False)
+    sim.N_active = 8; used.append("py:N_active")
+    sim.step(); used += ["reb_simulation_step", "py:step"]; oracle(sim, "step", True)
+    sim.steps(3); used += ["reb_simulation_steps", "py:steps"]; oracle(sim, "steps", True)
+    sim.integrate(sim.t + 0.12); used += ["reb_simulation_integrate", "py:integrate"]; oracle(sim, "integrate", True)
+    sim.move_to_com(); used += ["reb_simulation_move_to_com", "py:move_to_com"]; oracle(sim, "move_to_com", False)
+    sim.move_to_hel(); used += ["reb_simulation_move_to_hel", "py:move_to_hel"]; oracle(sim, "move_to_hel + wrap + update", True)
+    sim.update_tree(); used += ["reb_simulation_update_tree", "py:update_tree"]; oracle(sim, "update_tree", False)
+    n0 = sim.N
+    sim.remove(index=3, keep_sorted=False); used += ["reb_simulation_remove_particle", "py:remove"]
+    sim.remove(hash=2, keep_sorted=False); used.append("reb_simulation_remove_particle_by_hash")
+    oracle(sim, "remove (index, hash) + update", True)
+    if sim.N != n0 - 2:
+        out.viol.append(("entry-remove", "two removals on a simulation with a tree left N=%d (was %d)" % (sim.N, n0), dict(entry="remove")))
+    s2 = sim.copy(); used += ["reb_simulation_copy", "py:copy"]; oracle(s2, "copy", False)
+    fd, fn = tempfile.mkstemp(prefix="c15e.", suffix=".bin", dir=os.environ.get("VERIF_TMP", "/tmp")); os.close(fd)
+    try:
+        sim.save_to_file(fn, delete_file=True); used += ["reb_simulation_save_to_file", "py:save_to_file"]
+        s3 = _rebound.Simulation(fn); used.append("reb_simulation_create_from_file")
+        oracle(s3, "Simulation(filename)", False)
+        s3.step(); oracle(s3, "step after reload", True)
+    finally:
+        if os.path.exists(fn):
+            os.remove(fn)
+    _clib.reb_simulation_remove_all_particles(ctypes.byref(s2)); used.append("reb_simulation_remove_all_particles")
+    if s2.N != 0 or get_dump(s2):
+        out.viol.append(("entry-remove_all", "remove_all_particles left N=%d or a tree" % s2.N, dict(entry="remove_all")))
+    s2.add(m=1., x=0.3, y=0.2, z=0.1); s2.add(m=1., x=-0.3, y=0.2, z=0.1)
+    oracle(s2, "add after remove_all_particles", False)
+    del s2, s3; used.append("reb_simulation_free")
+    out.notes["entry_used"] = used
+    out.evals.append((("entry",), 10))
+
+
 # ----------------------------------------------------------------------------- forked workers
 _marker = [None]
 
@@ -1141,6 +1398,8 @@ def worker(job, path):
             run_scramble(job["cfg"], out)
         elif kind == "probe":
             run_probe(job, out)
+        elif kind == "entry":
+            run_entry(job, out)
     except Exception as e:   # python-level failure inside the worker = infrastructure
         import traceback
         out.notes["exception"] = traceback.format_exc()[-1500:]
@@ -1263,6 +1522,18 @@ def run(c):
                      "neither of the two forms the model knows (modulo wrap, clamp)")
     else:
         ROOT_RULE[0] = rule
+    # ---- translator: schedule of boundary checks / tree updates in reb_simulation_step and reb_collision_search
+    import extract_c15
+    try:
+        st_, pre_, end_ = extract_c15.extract(os.path.join(d, "src"))
+        write_if_changed(os.path.join(LEAN, "RV", "Gen", "C15Schedule.lean"), extract_c15.lean_file(st_, pre_, end_))
+        c.cov["schedule_calls_extracted"] = {"reb_simulation_step": len(st_), "end of reb_collision_search": len(end_)}
+        names = [x[0] for x in st_]
+        for need in ("reb_integrator_part1", "reb_integrator_part2", "reb_collision_search"):
+            if need not in names:
+                c.broken.append("schedule extraction: %s not found in reb_simulation_step" % need)
+    except extract_c15.ExtractError as e:
+        c.broken.append("schedule extraction failed (source no longer has a form the translator knows): %s" % e)
     ok = c.prove(["RV.Props.C15"])
     exe = lean_exe("drv_c15")
     T = c.thorough
@@ -1312,12 +1583,41 @@ def run(c):
             cfg["gravity"] = "tree"
         rows = gen_far(rng, cfg)
         jobs.append(dict(kind="boundary", cfg=cfg, rows=[[d2h(v) for v in r] for r in rows], with_tree=with_tree))
-    for i in range(n_sim):
+    # ---- random runs: all-pairs covering array of FACTORS (whole array in both tiers; thorough: three arrays), the full
+    #      3-way block boundary x gravity x collision x resolver (thorough: x integrator; quick: a seed-rotated third),
+    #      then random admissible vectors
+    fvs = []
+    for rep in range(3 if T else 1):
+        fvs += covering_array(c.rng.fork())
+    c.cov["covering_array_rows"] = len(fvs)
+    block = []
+    for b in FACTORS["boundary"]:
+        for g in FACTORS["gravity"]:
+            for col in FACTORS["collision"]:
+                for res in FACTORS["resolve"]:
+                    for integ in (FACTORS["integrator"] if T else ["*"]):
+                        block.append((b, g, col, res, integ))
+    r3 = c.rng.fork()
+    nblock = 0
+    for k, (b, g, col, res, integ) in enumerate(block):
+        if not T and k % 3 != c.seed % 3:
+            continue
+        for _ in range(200):
+            fv = random_vector(r3)
+            fv.update(boundary=b, gravity=g, collision=col, resolve=res)
+            if integ != "*":
+                fv["integrator"] = integ
+            if vector_ok(fv):
+                fvs.append(fv); nblock += 1
+                break
+    c.cov["three_way_block_rows"] = nblock
+    for i in range(max(n_sim, len(fvs))):
         rng = c.rng.fork()
-        cfg = gen_config(rng, "sim")
+        cfg = gen_config(rng, "sim", fv=(fvs[i] if i < len(fvs) else None))
         if len(cfg["parts"]) > 150 and not T:
             cfg["steps"] = min(cfg["steps"], 15)
         jobs.append(dict(kind="sim", cfg=cfg, model_budget=3))
+    jobs.append(dict(kind="entry", seed=c.rng.next() & 0xFFFFFF))
     for i in range(n_scr):
         rng = c.rng.fork()
         cfg = gen_config(rng, "scramble", allow_face=False)
@@ -1380,8 +1680,12 @@ def run(c):
                 st["totals"][k] = st["totals"].get(k, 0) + v
             st["depth"] = max(st["depth"], res["notes"].get("depth", 0))
             ne = max(1, res["counts"].get("tree_evaluations", 0) + res["counts"].get("boundary_calls", 0) + res["counts"].get("steps", 0))
+            if res["notes"].get("fv"):
+                st.setdefault("seenp", set()).update(pairs_of(res["notes"]["fv"]))
+            if res["notes"].get("entry_used"):
+                st.setdefault("entry_used", set()).update(res["notes"]["entry_used"])
             for key, n in res["evals"]:
-                c.count(tuple(key), nontrivial=n >= 2, n=ne)
+                c.count(tuple(key) if isinstance(key, (list, tuple)) else key, nontrivial=n >= 2, n=ne)
             for key, what, rep in res["viol"]:
                 if os.environ.get("C15_DEBUG"):
                     c.log("DEBUG", job["kind"], key, what[:200], res["notes"])
@@ -1407,6 +1711,28 @@ def run(c):
     c.cov["disagreements"] = st["nd"]
     c.cov["bitwise_mismatches_within_tolerance"] = st["nbit"]
     c.cov["shape_differences_explained_by_particle_on_cell_face"] = st["ties"]
+    # ---- pairwise coverage of the run factors
+    tot, exc = all_pairs()
+    seenp = st.get("seenp", set())
+    missing = [list(t) for t in tot if t not in seenp]
+    c.cov["pairs"] = {"covered": len(tot) - len(missing), "total": len(tot), "excluded": len(exc),
+                      "factors": {f: len(v) for f, v in FACTORS.items()}, "missing": missing[:20],
+                      "excluded_reasons": sorted({pair_excluded(*t) for t in exc})}
+    if missing and c.thorough:
+        c.broken.append("pairwise coverage of the run factors incomplete: %d of %d pairs never executed, e.g. %s" % (len(missing), len(tot), missing[:3]))
+    # ---- public entry points
+    cpres, related, pypres = extract_entry_points(d)
+    used = st.get("entry_used", set())
+    c.cov["entry_points"] = {"c_extracted": len(cpres), "python_extracted": len(pypres),
+                             "exercised": len([n for n in cpres if n in used]) + len([n for n in pypres if "py:" + n in used])}
+    if len(cpres) < len(C_ENTRY) or len(pypres) < len(PY_ENTRY):
+        c.broken.append("entry-point extraction: %s not found in rebound.h / rebound.Simulation" %
+                        ([n for n in C_ENTRY if n not in cpres] + [n for n in PY_ENTRY if n not in pypres]))
+    if related:
+        c.broken.append("public functions that look related to boundaries / the tree but are not in the entry-point table: %s" % related)
+    notused = [n for n in cpres if n not in used] + [n for n in pypres if "py:" + n not in used]
+    if notused:
+        c.broken.append("entry points not exercised in this run: %s" % notused)
     dims = {k[4:]: v for k, v in sorted(st["totals"].items()) if k.startswith("dim:")}
     c.cov["dimensions"] = dims
     c.cov["measured"] = {k: v for k, v in st["totals"].items() if not k.startswith("dim:")}
